@@ -1242,3 +1242,101 @@ Proof.
   split; intros r H;
     [exact (proj1 (fsreq_from_tlv_len t r H)) | exact (proj1 (fsresp_from_tlv_len t r H))].
 Qed.
+
+(* ================= C09 corollaries: suffix irrelevance, splitting back-to-back units ========== *)
+
+Lemma fault_suffix_irrelevant cc hc s :
+  0 <= cc <= 15 -> 0 <= hc <= 15 ->
+  fault_unpack (fault_layout cc hc ++ s) = fault_unpack (fault_layout cc hc).
+Proof.
+  intros Hc Hh. rewrite fault_unpack_roundtrip by assumption.
+  rewrite <- (app_nil_r (fault_layout cc hc)). rewrite fault_unpack_roundtrip by assumption. reflexivity.
+Qed.
+
+Lemma fsreq_suffix_irrelevant a f s sfx :
+  0 <= a <= 8 -> 1 + len (fs_names_layout a f s) <= 255 ->
+  utf8_valid f = true -> (second_name_present a = true -> utf8_valid s = true) ->
+  fsreq_unpack (fsreq_layout a f s ++ sfx) = fsreq_unpack (fsreq_layout a f s).
+Proof.
+  intros Ha Hl Uf U2. destruct (fsreq_roundtrip a f s sfx Ha Hl Uf U2) as (_ & _ & R1).
+  destruct (fsreq_roundtrip a f s [] Ha Hl Uf U2) as (_ & _ & R2).
+  rewrite app_nil_r in R2. rewrite R1, R2. reflexivity.
+Qed.
+
+Lemma fsresp_suffix_irrelevant a st f s m sfx :
+  0 <= a <= 8 -> 0 <= st <= 15 -> is_fs_status (a * 16 + st) = true ->
+  1 + len (fs_names_layout a f s) + (1 + len m) <= 255 ->
+  utf8_valid f = true -> (second_name_present a = true -> utf8_valid s = true) ->
+  fsresp_unpack (fsresp_layout a st f s m ++ sfx) = fsresp_unpack (fsresp_layout a st f s m).
+Proof.
+  intros Ha Hs Hst Hl Uf U2.
+  rewrite fsresp_unpack_roundtrip by assumption.
+  rewrite <- (app_nil_r (fsresp_layout a st f s m)). rewrite fsresp_unpack_roundtrip by assumption.
+  reflexivity.
+Qed.
+
+(* splitting a buffer of back-to-back TLVs purely by the reported lengths *)
+Fixpoint tlv_split (fuel : nat) (d : bytes) : res (list tlv) :=
+  match fuel with
+  | O => Err EFuel
+  | S k =>
+    if len d =? 0 then Ok [] else
+    do t <- tlv_unpack d;
+    do r <- tlv_split k (slice_from d (tlv_packet_len t));
+    Ok (t :: r)
+  end.
+
+Lemma tlv_split_S k d :
+  tlv_split (S k) d =
+  if len d =? 0 then Ok [] else
+  do t <- tlv_unpack d; do r <- tlv_split k (slice_from d (tlv_packet_len t)); Ok (t :: r).
+Proof. reflexivity. Qed.
+
+Definition tlv_ok (t : tlv) : Prop := is_tlv_type (tlv_type t) = true /\ len (tlv_value t) <= 255.
+Definition tlv_wire (t : tlv) : bytes := tlv_layout (tlv_type t) (tlv_value t).
+
+Lemma tlv_split_back_to_back ts :
+  Forall tlv_ok ts -> tlv_split (S (length ts)) (concat (map tlv_wire ts)) = Ok ts.
+Proof.
+  induction ts as [|t ts IH]; intros H; [reflexivity|].
+  inversion H as [|? ? [Ht Hl] Hts]; subst.
+  change (length (t :: ts)) with (S (length ts)). rewrite tlv_split_S.
+  cbn [map concat]. specialize (IH Hts). set (rest := concat (map tlv_wire ts)) in *.
+  unfold tlv_wire. rewrite len_app, tlv_layout_len. pose proof (len_nonneg (tlv_value t)).
+  pose proof (len_nonneg rest).
+  destruct (2 + len (tlv_value t) + len rest =? 0) eqn:E; [lia|].
+  rewrite tlv_unpack_layout_app by assumption. cbn [bind].
+  unfold tlv_packet_len. cbn [tlv_value]. rewrite tlv_rest_after.
+  destruct t as [ty v]. cbn [tlv_type tlv_value] in *. rewrite IH. reflexivity.
+Qed.
+
+(* the same for LVs *)
+Fixpoint lv_split (fuel : nat) (d : bytes) : res (list lv) :=
+  match fuel with
+  | O => Err EFuel
+  | S k =>
+    if len d =? 0 then Ok [] else
+    do v <- lv_unpack d;
+    do r <- lv_split k (slice_from d (lv_packet_len v));
+    Ok (v :: r)
+  end.
+
+Lemma lv_split_S k d :
+  lv_split (S k) d =
+  if len d =? 0 then Ok [] else
+  do v <- lv_unpack d; do r <- lv_split k (slice_from d (lv_packet_len v)); Ok (v :: r).
+Proof. reflexivity. Qed.
+
+Lemma lv_split_back_to_back vs :
+  Forall (fun v => len v <= 255) vs -> lv_split (S (length vs)) (concat (map lv_pack vs)) = Ok vs.
+Proof.
+  induction vs as [|v vs IH]; intros H; [reflexivity|].
+  inversion H as [|? ? Hl Hvs]; subst.
+  change (length (v :: vs)) with (S (length vs)). rewrite lv_split_S.
+  cbn [map concat]. specialize (IH Hvs). set (rest := concat (map lv_pack vs)) in *.
+  rewrite len_app, lv_pack_len. unfold lv_packet_len. pose proof (len_nonneg v).
+  pose proof (len_nonneg rest).
+  destruct (len v + 1 + len rest =? 0) eqn:E; [lia|].
+  rewrite lv_unpack_pack_app by assumption. cbn [bind].
+  fold (lv_packet_len v). rewrite lv_rest_after. rewrite IH. reflexivity.
+Qed.
